@@ -164,6 +164,9 @@ def check(ax, case, rec):
         if c == "AX" and not gv and f != "Bvv":
             rec.label("hoop-component:" + ("zero" if zt == 0 else "non-zero"))
         if f.startswith("L"):
+            if c == "AX" and not gv and case["seed"] % 3 == 0:
+                tv, zt = (2,), None  # in-plane components only (what a body force with one value per field component hands over)
+                rec.label("in-plane-components-only")
             fun = integrand(rng, tv, nq, nc, bcm, zero_theta=zt)
             form = fem.IntegralForm([fun], fc, dV, grad_v=[gv])
             got = dense(form.assemble(parallel=par)).ravel()
